@@ -496,21 +496,46 @@ func (c *Ctx) c20CauseTable() {
 			R.Unresolved("R3", rw.fn, "function not found")
 			continue
 		}
-		o := c.P.OriginsOf(f)
 		found := false
-		for _, e := range o.AllEdges() {
-			ft := o.EdgeFact(e)
-			if ft == nil || !rw.fact(ft) {
-				continue
+		// the guard may sit in the function itself or in a helper that is new on this tree (read in the
+		// calling context); a helper's rejection must be handed on unchanged by the caller
+		for _, o := range c.OpContexts(f) {
+			for _, e := range o.AllEdges() {
+				ft := o.EdgeFact(e)
+				if ft == nil || !rw.fact(ft) {
+					continue
+				}
+				r, ok := e.To().Instrs[len(e.To().Instrs)-1].(*ssa.Return)
+				if !ok {
+					continue
+				}
+				found = true
+				ev := o.Of(r.Results[len(r.Results)-1])
+				okE := ev.K == "gval" && strings.HasSuffix(ev.S, "."+rw.want)
+				why := "returns " + short(ev.String(), 100)
+				if okE && o.call != nil {
+					// the call site hands the helper's error on
+					co := o.caller
+					okE = false
+					why = "the caller of the new helper does not return the helper's error on its failure edge"
+					for _, ce := range co.AllEdges() {
+						cf := co.EdgeFact(ce)
+						if cf == nil || cf.Kind != "errnil" || cf.Pos || !exIsCallResult(cf.A, o.call) {
+							continue
+						}
+						if cr, ok := ce.To().Instrs[len(ce.To().Instrs)-1].(*ssa.Return); ok && exIsCallResult(co.Of(cr.Results[len(cr.Results)-1]), o.call) {
+							okE = true
+						}
+					}
+					for _, cr := range Returns(co.Fn) {
+						// tail call: return helper(...)
+						if n := len(cr.Results); n > 0 && exIsCallResult(co.Of(cr.Results[n-1]), o.call) && cr.Block() == o.call.Block() {
+							okE = true
+						}
+					}
+				}
+				R.Check("R3", rw.fn, "cause '"+rw.cause+"' -> "+rw.want, c.P.InstrPos(r), okE, "a request refused because of '"+rw.cause+"' is answered with "+rw.want, why)
 			}
-			r, ok := e.To().Instrs[len(e.To().Instrs)-1].(*ssa.Return)
-			if !ok {
-				continue
-			}
-			found = true
-			ev := o.Of(r.Results[len(r.Results)-1])
-			okE := ev.K == "gval" && strings.HasSuffix(ev.S, "."+rw.want)
-			R.Check("R3", rw.fn, "cause '"+rw.cause+"' -> "+rw.want, c.P.InstrPos(r), okE, "a request refused because of '"+rw.cause+"' is answered with "+rw.want, "returns "+short(ev.String(), 100))
 		}
 		if !found {
 			R.Check("R3", rw.fn, "cause '"+rw.cause+"' -> "+rw.want, c.P.Pos(f.Pos()), false, "the guard for '"+rw.cause+"' rejects with "+rw.want, "no reject edge of that guard leads directly to a return")
